@@ -13,8 +13,8 @@ from ..run import hyp_search, mix
 RULE = ('(a) name layer, enumerated completely: every element class x every schema child name and every schema '
         'attribute name (dot name derived from the ORACLE\'s name): unset read returns None, set-by-dot == explicit '
         'add_child / constructor keyword (same verdict, same text), read-back returns the stored child / value, '
-        '=None removes, =None on an unset attribute (by dot and by constructor keyword) is a silent no-op; undeclared names raise AttributeError on read and write; for every repeatable child: with three same-named children the dot read returns the first one the serialisation shows, also after replace_child of the 2nd / 3rd, and =None then removes exactly that child (twin: explicit remove).  (b) Hypothesis-drawn intent '
-        'sequences (child := value | instance | None, attribute := value | None, constructor keywords) executed '
+        '=None removes, =None on an unset attribute (by dot and by constructor keyword) is a silent no-op; undeclared names raise AttributeError on read and write; for every repeatable child: with three same-named children the dot read returns the first one the serialisation shows, also after replace_child of the 2nd / 3rd, and =None then removes exactly that child (twin: explicit remove); where a removal followed by an addition makes insertion order and document order of same-named text children differ, xml_x = value / instance / None equals find_child + value_ / replace_child / remove.  (b) Hypothesis-drawn intent '
+        'sequences (child := value | instance | None, attribute := value | None, constructor keywords; plain add_child calls on both surfaces create states with several same-named children, holes after removals included) executed '
         'once through the dot surface and once through add_child / replace_child / remove / value_ / constructor '
         'keywords; after every intent both elements must agree on exception-vs-success, exception type for child / '
         'value reasons, children (names, order), attributes, value and to_string text or verdict.  Non-trivial = a '
@@ -181,6 +181,76 @@ def name_multi(el, child, which=1):
     return None
 
 
+def _values_for(child, n):
+    s = schema()
+    tt = s.text_type(s.element_type[child])
+    out = []
+    if tt is not None:
+        for txt in lexical.valid_texts(tt):
+            ok, pv = lexical.python_value_for(tt, txt)
+            if ok and txt != '' and pv not in out:
+                out.append(pv)
+            if len(out) >= n:
+                break
+    return out
+
+
+def name_holes(el, child):
+    """two same-named children in DIFFERENT places of the content model, the first removed and a third added (it takes
+    the free place, so insertion order and document order differ): xml_x = value / instance / None must still do
+    exactly what find_child + value_ / replace_child / remove do"""
+    s = schema()
+    t = s.element_type[el]
+    vals = _values_for(child, 4)
+    if len(vals) < 4:
+        return None, 'no-distinct-values'
+    cls = cls_for(child)
+    cname = cls.__name__
+    dot = 'xml_' + py_name(child)
+
+    def build():
+        r = call(fresh, el)
+        if not r.ok:
+            return None
+        e = r.value
+        ks = []
+        for v in vals[:2]:
+            k = cls(v, xsd_check=False)
+            if not call(e.add_child, k).ok:
+                return None
+            ks.append(k)
+        if not call(e.remove, ks[0]).ok:
+            return None
+        k2 = cls(vals[2], xsd_check=False)
+        if not call(e.add_child, k2).ok:
+            return None
+        return e
+    probe = build()
+    if probe is None:
+        return None, 'not-buildable'
+    ordered = [c.value_ for c in call(probe.get_children, True).value if c.name == child]
+    unordered = [c.value_ for c in call(probe.get_children, False).value if c.name == child]
+    if ordered == unordered:
+        return None, 'no-hole'
+    for how in ('value', 'instance', 'none'):
+        a, b = build(), build()
+        found = call(b.find_child, cname).value
+        if how == 'value':
+            r1 = call(setattr, a, dot, vals[3])
+            r2 = call(setattr, found, 'value_', vals[3])
+        elif how == 'instance':
+            r1 = call(setattr, a, dot, cls(vals[3], xsd_check=False))
+            r2 = call(b.replace_child, found, cls(vals[3], xsd_check=False))
+        else:
+            r1 = call(setattr, a, dot, None)
+            r2 = call(b.remove, found)
+        sa, sb = snapshot(a), snapshot(b)
+        if r1.ok != r2.ok or sa != sb:
+            return F('surface-result-differs', t, {'layer': 'holes', 'element': el, 'child': child, 'how': how},
+                     {'dot': [r1.verdict()[0], sa.get('string')], 'explicit': [r2.verdict()[0], sb.get('string')]}), 'compared'
+    return None, 'compared'
+
+
 def name_unknown(el, _):
     s = schema()
     t = s.element_type[el]
@@ -211,11 +281,16 @@ def apply_dot(e, it):
         return call(setattr, e, 'xml_' + py_name(it[1]), None)
     if k == 'attr':
         return call(setattr, e, py_name(it[1].split(':')[-1]), it[2])
+    if k == 'child-add':
+        return call(e.add_child, stub(it[1]))
     raise ValueError(k)
 
 
 def apply_explicit(e, it):
     k = it[0]
+    if k == 'child-add':
+        # the same explicit call on both surfaces: it only prepares states with several same-named children
+        return call(e.add_child, stub(it[1]))
     if k.startswith('child'):
         cname = type(e).__module__ and driver.convert_to_xml_class_name(it[1])
         r0 = call(getattr, driver.X, cname)
@@ -291,6 +366,8 @@ def replay_case(rec):
         return name_attr(inp['element'], inp['attribute'])
     if inp['layer'] == 'unknown-name':
         return name_unknown(inp['element'], None)
+    if inp['layer'] == 'holes':
+        return name_holes(inp['element'], inp['child'])[0]
     if inp['layer'] == 'multi':
         return name_multi(inp['element'], inp['child'], inp.get('which', 1))
     return check_sequence(inp['element'], inp['ctor'], inp['intents'])
@@ -305,6 +382,7 @@ def shards(ctx):
             for c in s.alphabet(t):
                 obs.append(('child', el, c))
                 obs.append(('multi', el, c))
+                obs.append(('holes', el, c))
         for a in s.attributes_of(t):
             obs.append(('attr', el, a['qname']))
         obs.append(('unknown', el, None))
@@ -320,6 +398,14 @@ def run_shard(ctx, shard, acc):
         fn = {'child': name_child, 'attr': name_attr, 'unknown': name_unknown,
               'multi': lambda el, x: name_multi(el, x, 1) or name_multi(el, x, 2)}
         for kind, el, x in shard['obs']:
+            if kind == 'holes':
+                f, status = name_holes(el, x)
+                acc.count('holes-' + status)
+                if status == 'compared':
+                    acc.case({'layer': 'holes', 'element': el, 'child': x}, True)
+                if f:
+                    acc.fail(f, raise_=False)
+                continue
             acc.case({'layer': kind, 'element': el, 'name': x}, True)
             acc.count('name-' + kind)
             f = fn[kind](el, x)
@@ -346,7 +432,8 @@ def run_shard(ctx, shard, acc):
         flags = set()
         held = []
         for _ in range(data.draw(st.integers(1, 10 if ctx.quick else 20))):
-            k = data.draw(st.sampled_from(['child-inst', 'child-inst', 'child-value', 'child-none', 'attr']))
+            k = data.draw(st.sampled_from(['child-inst', 'child-inst', 'child-value', 'child-value', 'child-none',
+                                           'child-none', 'attr', 'child-add', 'child-add']))
             if k == 'attr':
                 if not attrs:
                     continue
@@ -383,6 +470,15 @@ def run_shard(ctx, shard, acc):
                     elif good and c != 'incompatible':
                         held.append(sym)
                     continue
+            if k == 'child-add':
+                if held and data.draw(st.integers(0, 1)):
+                    sym = data.draw(st.sampled_from(sorted(set(held))))     # another child of a name already held
+                intents.append(['child-add', sym])
+                if sym in held:
+                    flags.add('same-named-children')
+                if c != 'incompatible' or sym in held:
+                    held.append(sym)
+                continue
             if k == 'child-inst':
                 intents.append(['child-inst', sym])
                 if sym in held:
